@@ -251,6 +251,8 @@ class Verdict:
         cov["stages"] = self.stage_info
         cov["model_drift"] = self.drift
         cov["known_findings_seen"] = sorted(self.known_seen.keys())
+        if self.notes:
+            cov["notes"] = list(self.notes)
         if exhaustive is not None:
             cov["exhaustive"] = exhaustive
         if extra_cov:
